@@ -35,7 +35,7 @@ def run(ctx):
     for L in langs:
         tg = [L] + sorted(exported["langs"][L]["locales"])
         for i in range(0, len(tg), 6):
-            reqs.append({"lang": L, "targets": tg[i:i + 6], "counts": counts, "bases": bases, "quick": ctx.quick()})
+            reqs.append({"lang": L, "targets": tg[i:i + 6], "counts": counts, "bases": bases, "quick": ctx.quick(), "twice": i == 0})
     res = core.run_cases(ctx, "harness.c05lib", "walk_relative", reqs, chunk=1)
     records, index = [], []
     for L, recs in zip([r["lang"] for r in reqs], res):
